@@ -27,22 +27,22 @@ CLAIMED = {
   note="generated and native code are atomic blocks except at call-outs; the real GC is not scheduled by the simulator (a crash it causes is a true violation but replays only through the deterministic traceback-sentinel oracle)",
   ref="DESIGN.md 3 (C08)"),
  "C10": dict(
-  technique="deterministic simulation of Go-runtime events: sonic's per-opcode debug seam re-pointed at the simulator (a hook call after every opcode of every compiled program, both JITs) plus hooks in every user callback; the tape injects GC, stack growth/shrink (stack moves), tracebacks with sentinel check, Gosched, background GC cycles, allocation churn; GODEBUG=clobberfree=1, SetGCPercent(-1); two toolchains",
+  technique="deterministic simulation of Go-runtime events: sonic's per-opcode debug seam re-pointed at the simulator (a hook call after every opcode of every compiled program, both JITs) plus hooks in every user callback; the tape injects GC, stack growth/shrink (stack moves), tracebacks with sentinel check, Gosched, background GC cycles, allocation churn; GODEBUG=clobberfree=1, SetGCPercent(-1); lazily compiled (one module per program) and Pretouch-ed (batch-loaded multi-function modules) programs; two toolchains",
   text="seeded search over (event kind x opcode boundary x program) schedules in child processes; every run is one tape",
   note="opcode boundaries and call-outs only, not arbitrary instructions; upstream's own exemption before `save` opcodes; the C10 flavour adds one call per opcode to the generated code; background-cycle timing is the runtime's",
   ref="DESIGN.md 3 (C10)"),
  "C05": dict(
-  technique="deterministic simulation of memory placement (no schedule involved): every input is evaluated on a heap copy, with 1-48 seeded continuation bytes after it, and ending exactly at a PROT_NONE guard page; faults raised inside native routines are recovered (SetPanicOnFault) and reported as reads past the end of the input; three worker configurations (AVX2, SSE, optdec)",
+  technique="deterministic simulation of memory placement (no schedule involved): every input is evaluated on a heap copy, with 1-48 seeded continuation bytes after it, and ending exactly at a PROT_NONE guard page; faults raised inside native routines are recovered (SetPanicOnFault) and reported as reads past the end of the input; three worker configurations (AVX2, SSE, optdec); for optdec the pooled private copy is one more placement: a fresh parser per call whose buffer capacity (around len(input)+padding, 0..1 MiB), leftovers in the spare bytes and node-buffer size come from the tape (hook optdec.SimParserGeometry)",
   text="seeded search over (input x entry point x placement x continuation); identical results and no fault required; two known findings in the pre-generated native routines are reported as KNOWN-FINDING",
   note="claim limited to memory placement/over-read (the property has no schedule); amd64 only; inputs are sampled from fragments, truncations, valid documents and SIMD-boundary lengths",
   ref="DESIGN.md 3 (C05), 6 (F10, F13)"),
  "C06": dict(
-  technique="deterministic simulation of the caller's side of ownership: seeded call histories over seeded pools that poison spare capacity on Put, caller buffers whose capacity ends at a PROT_NONE guard page or canaries, the caller scribbling over its inputs after each call; snapshot comparison of every result after every step; buffer-size and pool-limit knobs",
+  technique="deterministic simulation of the caller's side of ownership: seeded call histories over seeded pools that poison spare capacity on Put, caller buffers whose capacity ends at a PROT_NONE guard page or canaries, the caller scribbling over its inputs after each call (decodes into interface{}, generated types and a struct with quoted/numbered/raw/pointer/map destinations, under option sets, through Unmarshal([]byte) and three CopyString entry points; JIT and optdec+VM configurations); snapshot comparison of every result after every step; buffer-size and pool-limit knobs",
   text="seeded search over histories x buffer geometry x pool decisions x knobs; one history = one tape; crashes at the guard page are attributed to the run and replayed from a pre-generated tape",
   note="single client (concurrent recycling is covered by C08's poisoning pools); only the stated direction (sonic must not touch caller-owned bytes) is checked",
   ref="DESIGN.md 3 (C06)"),
  "C09": dict(
-  technique="deterministic simulation of process-global state through seeded call histories: program-cache capacity knob (rehash/wrap-around with a handful of types), compile-option knobs, seeded permutation of every Go map iteration in the compile and batch-load paths, seeded pool decisions, same-named distinct types; oracle = encoding/json + arbitration by the same call with emptied caches",
+  technique="deterministic simulation of process-global state through seeded call histories: program-cache capacity knob (rehash/wrap-around with a handful of types), compile-option knobs, seeded permutation of every Go map iteration in the compile and batch-load paths, seeded pool decisions, same-named distinct types; per-call option sets (4 encoder, 6 decoder configurations incl. CaseSensitive / DisallowUnknownFields with inputs that make them matter); oracle = every Marshal/Unmarshal of the history re-executed with emptied caches and pools (history-free execution) must give the same result; encoding/json only counts suspects",
   text="seeded search over histories x knobs; one history = one tape, minimised and replayed in a fresh process",
   note="single client (the concurrent aspect is C08); reference restricted to the value subset of DESIGN Appendix B; loader module list is never reset inside a process",
   ref="DESIGN.md 3 (C09)"),
